@@ -14,6 +14,22 @@ pub enum Kind {
     /// different public method from the `&mut` form; adapters ignore `inp` and operate on `out` like `InPlace`
     Alias,
 }
+/// A closure *script*: a sequence of backend calls made inside one `*_with_backend` / `process_with_backend` session.
+/// Op codes: 0 / 1 = one full parallel group through `*_par_blocks` / `*_par_blocks_inplace`; 2 / 3 = one block through
+/// `*_block` / `*_block_inplace`; 4 / 5 = a tail of one block through `*_tail_blocks` / `*_tail_blocks_inplace`; 6 / 7 = a
+/// tail of two blocks.  Tails are capped at width-1 blocks (the trait's contract) and vanish for width 1.
+pub fn script_op_blocks(op: u8, width: usize) -> usize {
+    match op / 2 {
+        0 => width,
+        1 => 1,
+        2 => 1.min(width.saturating_sub(1)),
+        _ => 2.min(width.saturating_sub(1)),
+    }
+}
+/// number of blocks a script consumes on a backend of the given width
+pub fn script_blocks(script: &[u8], width: usize) -> usize {
+    script.iter().map(|&op| script_op_blocks(op, width)).sum()
+}
 pub const KINDS: [Kind; 4] = [Kind::InPlace, Kind::B2b, Kind::InOut, Kind::Alias];
 impl Kind {
     /// does the call read its input from the output buffer?
@@ -162,6 +178,11 @@ pub trait BlockMode {
     /// 6 = one block through `*_block_inplace` first, then as 2 on the rest; 7 = first half buffer to buffer and second
     /// half through the `*_inplace` methods inside one backend session; 8 = the other way round
     fn many_closure(&mut self, mode: u8, buf: &mut [u8]);
+    /// `*_with_backend` with a caller-supplied closure that executes `script` on consecutive blocks of `buf` in ONE backend
+    /// session (see `script_blocks`).  The width that counts is the MODE backend's (1 for the inherently sequential
+    /// directions), which only the closure sees: `buf` must hold at least `script_blocks(script, cipher width)` blocks and the
+    /// number of blocks actually processed is returned; the rest of `buf` is left alone
+    fn many_script(&mut self, script: &[u8], buf: &mut [u8]) -> usize;
     fn iv_state(&self) -> Vec<u8>;
     fn dup(&self) -> Box<dyn BlockMode>;
     fn debug(&self) -> String;
@@ -210,6 +231,9 @@ pub trait Core {
     /// `process_with_backend` with a caller-supplied closure writing keystream blocks; `mode` as for
     /// `BlockMode::many_closure` (the stream backend has no `*_inplace` methods: 3 / 4 behave as 1 / 2)
     fn write_blocks_closure(&mut self, mode: u8, out: &mut [u8]);
+    /// `process_with_backend` with a caller-supplied closure executing `script` (see `script_blocks`; the stream backend has
+    /// no in-place variants: odd op codes behave like the even ones); returns the number of blocks written
+    fn write_script(&mut self, script: &[u8], out: &mut [u8]) -> usize;
     /// `try_apply_keystream_partial`, consuming
     fn partial(self: Box<Self>, k: Kind, inp: &[u8], out: &mut [u8]) -> R;
     /// `None` when the core is not seekable
